@@ -37,18 +37,15 @@ PLANS["C01"] = {
         lp("S0mk-san", "sanl1", "S0mk", "default", weight=2),
     ],
     "thorough": [
-        lp("S0-default", "prodl1", "S0", "default", weight=2),
-        lp("S1-default", "prodl1", "S1", "default", weight=6),
-        lp("S3-default", "prodl1", "S3", "default", weight=6),
-        lp("SXq-default-fullladder", "prod", "SXq", "default", weight=8),
-        lp("S0c-k2", "prodl1", "S0c", "k2", weight=10),
-        lp("T-k2", "prod", "T", "k2", weight=4),
-        lp("S0c-full-512", "prodl1", "S0c", "full", weight=6, range=[0, 1200]),
-        lp("Sill-k1", "prodl1", "Sill", "k1", weight=1),
-        lp("S0mk-san-k1x", "sanl1", "S0mk", "k1x", weight=4),
+        lp("S0-default", "prodl1", "S0", "default", weight=3),
+        lp("S0q1-k2", "prodl1", "S0q1", "k2", weight=5),
+        lp("Sbq-k1", "prodl1", "Sbq", "k1", weight=2),
+        lp("T-k2", "prod", "T", "k2", weight=7, opts={"fam": "T", "cfg": "k2", "tscale": 30}),
+        lp("SXq-default-fullladder", "prod", "SXq", "default", weight=4),
+        lp("S0mk-san-k1x", "sanl1", "S0mk", "k1x", weight=2),
     ],
     "bounds": {"quick": "S0k (n<=2,m<=2) x default config; S0q1, Sbq (bound-shape-rich), T x all configurations within one deviation of the default (K<=1); C04 adds the direct-simplex sub-lattice kdir and warm starts from every basis",
-               "thorough": "S1,S3,SX x default; S0c,T x K<=2; full configuration product on the first 1200 indices of S0c"},
+               "thorough": "S0 (1.9M LPs) x default; S0q1 and T x all configurations within two deviations (K<=2, 200 configurations); SXq (extreme magnitudes) x default with the full precision ladder; sized for a 20 minute cap on 16 cores - a run the cap interrupts is reported as such"},
     "assumptions": LP_ASSUME,
 }
 for pid, title in (("C02", "INFEASIBLE only with an exact Farkas certificate"),
@@ -61,8 +58,8 @@ PLANS["C03"]["thorough"] = PLANS["C01"]["thorough"] + [lp("S0c-prod-default-ladd
 PLANS["C04"]["quick"] = PLANS["C01"]["quick"] + [lp("S0q1-kdir", "prodl1", "S0q1", "kdir", weight=2, crash_props=["C17", "C04"]), lp("Sbq-kdir", "prodl1", "Sbq", "kdir", weight=2, crash_props=["C17", "C04"]), lp("CP-kpr", "prod", "CP", "kpr", weight=2, crash_props=["C17", "C04"]), lp("T-kdir", "prod", "T", "kdir", weight=2, crash_props=["C17", "C04"], opts={"fam": "T", "cfg": "kdir", "tscale": 30}),
                                                 fam("warm-allbases-S0q1", "prodl1", "basis", {"fam": "S0q1", "files": 0, "verify": 0, "warm": 1}, weight=2, crash_props=["C17", "C04"]),
                                                 fam("warm-allbases-S1q", "prodl1", "basis", {"fam": "S1q", "files": 0, "verify": 0, "warm": 1}, weight=2, crash_props=["C17", "C04"])]
-PLANS["C04"]["thorough"] = PLANS["C01"]["thorough"] + [lp("S0c-kdir", "prodl1", "S0c", "kdir", weight=4, crash_props=["C17", "C04"]), lp("T-kdir", "prod", "T", "kdir", weight=2, crash_props=["C17", "C04"], opts={"fam": "T", "cfg": "kdir", "tscale": 30}),
-                                                       fam("warm-allbases-S0c", "prodl1", "basis", {"fam": "S0c", "files": 0, "verify": 0, "warm": 1}, weight=8, crash_props=["C17", "C04"])]
+PLANS["C04"]["thorough"] = PLANS["C01"]["thorough"] + [lp("Sbq-kdir", "prodl1", "Sbq", "kdir", weight=3, crash_props=["C17", "C04"]), lp("CP-kpr", "prod", "CP", "kpr", weight=2, crash_props=["C17", "C04"]), lp("T-kdir", "prod", "T", "kdir", weight=2, crash_props=["C17", "C04"], opts={"fam": "T", "cfg": "kdir", "tscale": 30}),
+                                                       fam("warm-allbases-S0q1", "prodl1", "basis", {"fam": "S0q1", "files": 0, "verify": 0, "warm": 1}, weight=2, crash_props=["C17", "C04"]), fam("warm-allbases-Sbq", "prodl1", "basis", {"fam": "Sbq", "files": 0, "verify": 0, "warm": 1}, weight=3, crash_props=["C17", "C04"])]
 PLANS["C04"]["rule"] = PLANS["C01"]["rule"] + "; family 'basis' with warm=1: QSexact_solver (primal and dual start) warm-started from EVERY valid basis of every LP (singular bases included) must return the reference truth; configuration set kdir = full product {mpq_QSopt_primal, mpq_QSopt_dual} x scaling {on, off} x warm start {none, 3 bases} (the direct rational simplex sub-lattice, 3 simultaneous deviations); configuration set kpr = full product {mpq_QSopt_primal, mpq_QSopt_dual} x 4 primal pricing rules x 4 dual pricing rules x scaling {on, off} on family CP, a deterministic catalogue of 240 covering/packing LPs with 3..5 rows and 4..8 columns (answers compared with the default configuration's and, where Fourier-Motzkin finishes, with the truth)"
 PLANS["C04"]["evidence"] = {"states": ["instances"], "transitions": ["executions"], "nontrivial": ["instances_nontrivial"]}
 
@@ -549,7 +546,7 @@ PLANS["C13"]["rule"] += ("; family hist with binv=1: after every OPTIMAL solve i
 _SW3P = hist("hist-sw3-prod", "prod", 3, weight=1, crash_props=["C17", "C01", "C02"], opts={"depth": 3, "reduced": 0, "sandwich": 1})
 for _pid in ("C01", "C02"):
     PLANS[_pid]["quick"] = PLANS[_pid]["quick"] + [_SW3P]
-    PLANS[_pid]["thorough"] = PLANS[_pid]["thorough"] + [_SW3P, hist("hist-sw4-prod", "prod", 4, weight=4, crash_props=["C17", "C01", "C02"], opts={"depth": 4, "reduced": 0, "sandwich": 1})]
+    PLANS[_pid]["thorough"] = PLANS[_pid]["thorough"] + [_SW3P, hist("hist-d3r-prod", "prod", 3, reduced=1, weight=2, crash_props=["C17", "C01", "C02"])]
     PLANS[_pid]["rule"] = PLANS[_pid]["rule"] + "; family hist with sandwich=1: start problem ; solve ; any of the 66 operations ; solve - the certificate oracle is applied to the answers served after the last call (cached or re-solved)"
     PLANS[_pid]["evidence"] = {"states": ["instances", "histories"], "transitions": ["executions", "api_transitions"], "nontrivial": ["instances_nontrivial", "histories"]}
 
